@@ -1,5 +1,6 @@
 import InTotoModel.Model.KeyId
-import InTotoModel.Props.C05
+import InTotoModel.Props.C10
+import InTotoModel.Props.C11
 import InTotoModel.Lemmas.Assoc
 /-
   C12 — Key identity is intrinsic, stable, interoperable and cannot be aliased.
